@@ -62,9 +62,21 @@ fn mk_date(y: i32, m: u32, d: u32) -> NaiveDate {
     NaiveDate::from_ymd_opt(y, m, d).expect("harness: invalid date generated")
 }
 
+/// The application's values have nanosecond resolution, the wire has microseconds: the cell's
+/// microseconds are what a client must decode, the nanoseconds below them (a deterministic
+/// function of the cell, zero for a third of the cells, 999 for another part) are cut off.
+fn sub_micro_ns(a: u32, b: u32) -> u32 {
+    match (a ^ b.rotate_left(7)) % 6 {
+        0 | 1 => 0,
+        2 => 999,
+        3 => 500,
+        _ => (a.wrapping_mul(7919) ^ b) % 1000,
+    }
+}
+
 fn mk_datetime(y: i32, mo: u32, d: u32, h: u32, mi: u32, s: u32, us: u32) -> NaiveDateTime {
     mk_date(y, mo, d)
-        .and_hms_micro_opt(h, mi, s, us)
+        .and_hms_nano_opt(h, mi, s, us * 1000 + sub_micro_ns(us, s + 60 * mi))
         .expect("harness: invalid time generated")
 }
 
@@ -108,7 +120,7 @@ macro_rules! with_cell {
             Cell::DateTime(y, mo, d, h, mi, s, us) => {
                 $f!(mk_datetime(*y, *mo, *d, *h, *mi, *s, *us))
             }
-            Cell::Dur(s, us) => $f!(Duration::new(*s, *us * 1000)),
+            Cell::Dur(s, us) => $f!(Duration::new(*s, *us * 1000 + sub_micro_ns(*us, *s as u32))),
             Cell::Null(tag) => match tag % 7 {
                 0 => $f!(None::<u8>),
                 1 => $f!(None::<i64>),
@@ -139,7 +151,7 @@ macro_rules! with_cell {
                 Cell::DateTime(y, mo, d, h, mi, s, us) => {
                     $f!(Some(mk_datetime(*y, *mo, *d, *h, *mi, *s, *us)))
                 }
-                Cell::Dur(s, us) => $f!(Some(Duration::new(*s, *us * 1000))),
+                Cell::Dur(s, us) => $f!(Some(Duration::new(*s, *us * 1000 + sub_micro_ns(*us, *s as u32)))),
                 Cell::Myc(v) => $f!(Some(mk_myc(v))),
                 Cell::Null(_) | Cell::Some(_) | Cell::Ref(_) | Cell::OrAnyTemporal(_) => $f!(None::<u8>),
             },
